@@ -88,8 +88,14 @@ fn json_str(s: &str) -> String {
     o
 }
 
+static LAST_PANIC: std::sync::Mutex<String> = std::sync::Mutex::new(String::new());
+
 fn main() {
-    std::panic::set_hook(Box::new(|_| {}));
+    std::panic::set_hook(Box::new(|info| {
+        if let Ok(mut g) = LAST_PANIC.lock() {
+            *g = info.to_string().replace('\n', " ");
+        }
+    }));
     let args: Vec<String> = std::env::args().collect();
     match args.get(1).map(|s| s.as_str()) {
         Some("impl") => {
@@ -108,9 +114,24 @@ fn main() {
             let outdir = args.get(5).expect("OUTDIR");
             let thorough = tier == "thorough";
             let mut out = Out::new();
-            if !gens::generate(prop, thorough, seed, &mut out) {
-                eprintln!("unknown property {}", prop);
-                std::process::exit(2);
+            // A panic inside a generator means the implementation panicked in one of the oracle's
+            // direct calls (the line-protocol cases are already run under catch_unwind): keep what was
+            // produced so far and report it as an oracle failure on the last case.
+            let known = std::panic::catch_unwind(std::panic::AssertUnwindSafe(|| gens::generate(prop, thorough, seed, &mut out)));
+            match known {
+                Ok(true) => {}
+                Ok(false) => {
+                    eprintln!("unknown property {}", prop);
+                    std::process::exit(2);
+                }
+                Err(_) => {
+                    let msg = LAST_PANIC.lock().map(|g| g.clone()).unwrap_or_default();
+                    if out.cases.is_empty() {
+                        out.case("noop".to_string(), false);
+                    }
+                    let i = out.cases.len() - 1;
+                    out.fail(i, format!("{} the implementation panicked in a direct call made by the oracle after this case: {}", prop, msg));
+                }
             }
             std::fs::create_dir_all(outdir).expect("outdir");
             let mut f = std::io::BufWriter::new(std::fs::File::create(format!("{}/cases.txt", outdir)).unwrap());
